@@ -1,6 +1,7 @@
 package core
 
 import (
+	"go/constant"
 	"fmt"
 	"go/token"
 	"go/types"
@@ -596,7 +597,145 @@ func (s *Sentinels) isTest(bf BoolFact) (x ssa.Value, g *ssa.Global, pos bool, o
 	return nil, nil, false, false
 }
 
+// predHelper: bf is a fact about h(x) with h a pandora function of one error parameter and one bool result whose body
+// only tests that parameter against sentinels (errors.Is(p, G) / p == G in any arrangement of ||, &&, if and return).
+// The helper is evaluated concretely for every truth assignment of its tests: a false answer rules out exactly the
+// sentinels whose test being true always makes it answer true; a true answer restricts x to the tested sentinels when the
+// helper answers false with every test false.
+func (s *Sentinels) predHelper(bf BoolFact) (x ssa.Value, ruledOut []*ssa.Global, restrict []*ssa.Global, ok bool) {
+	cl, _ := CallOfValue(bf.Subj)
+	if cl == nil || len(cl.Call.Args) != 1 {
+		return nil, nil, nil, false
+	}
+	h := cl.Call.StaticCallee()
+	if h == nil || len(h.Blocks) == 0 || len(h.Params) != 1 || h.Signature.Results().Len() != 1 || len(h.Blocks) > 12 {
+		return nil, nil, nil, false
+	}
+	if b, isB := h.Signature.Results().At(0).Type().Underlying().(*types.Basic); !isB || b.Kind() != types.Bool {
+		return nil, nil, nil, false
+	}
+	// the tests
+	var tests []ssa.Value
+	var globs []*ssa.Global
+	testIdx := func(v ssa.Value) int {
+		for i, t := range tests {
+			if t == v {
+				return i
+			}
+		}
+		tx, g, pos, isT := s.isTest(BoolFact{Subj: v, Val: true})
+		if !isT || !pos || Strip(tx) != ssa.Value(h.Params[0]) {
+			return -1
+		}
+		tests = append(tests, v)
+		globs = append(globs, g)
+		return len(tests) - 1
+	}
+	var eval func(assign int) (bool, bool)
+	eval = func(assign int) (bool, bool) {
+		var val func(v ssa.Value, from *ssa.BasicBlock, d int) (bool, bool)
+		val = func(v ssa.Value, from *ssa.BasicBlock, d int) (bool, bool) {
+			if d > 8 {
+				return false, false
+			}
+			if k, isK := v.(*ssa.Const); isK && k.Value != nil && k.Value.Kind() == constant.Bool {
+				return constant.BoolVal(k.Value), true
+			}
+			if u, isU := v.(*ssa.UnOp); isU && u.Op == token.NOT {
+				r, okR := val(u.X, from, d+1)
+				return !r, okR
+			}
+			if ph, isPh := v.(*ssa.Phi); isPh && from != nil {
+				for i, pr := range ph.Block().Preds {
+					if pr == from {
+						return val(ph.Edges[i], nil, d+1)
+					}
+				}
+				return false, false
+			}
+			if i := testIdx(v); i >= 0 && i < 6 {
+				return assign&(1<<i) != 0, true
+			}
+			return false, false
+		}
+		b := h.Blocks[0]
+		var prev *ssa.BasicBlock
+		for steps := 0; steps < 40; steps++ {
+			switch last := b.Instrs[len(b.Instrs)-1].(type) {
+			case *ssa.Return:
+				return val(last.Results[0], prev, 0)
+			case *ssa.Jump:
+				prev, b = b, b.Succs[0]
+			case *ssa.If:
+				c, okC := val(last.Cond, prev, 0)
+				if !okC {
+					return false, false
+				}
+				if c {
+					prev, b = b, b.Succs[0]
+				} else {
+					prev, b = b, b.Succs[1]
+				}
+			default:
+				return false, false
+			}
+		}
+		return false, false
+	}
+	// (phis are evaluated with the predecessor the walk came from: recorded one step late for a return block's phi)
+	if _, okE := eval(0); !okE || len(tests) == 0 {
+		return nil, nil, nil, false
+	}
+	n := len(tests)
+	res := make([]bool, 1<<n)
+	for a := 0; a < 1<<n; a++ {
+		r, okR := eval(a)
+		if !okR || len(tests) != n {
+			return nil, nil, nil, false
+		}
+		res[a] = r
+	}
+	for i := 0; i < n; i++ {
+		always := true
+		for a := 0; a < 1<<n; a++ {
+			if a&(1<<i) != 0 && !res[a] {
+				always = false
+			}
+		}
+		if always {
+			ruledOut = append(ruledOut, globs[i])
+		}
+	}
+	if !res[0] {
+		restrict = globs
+	}
+	return cl.Call.Args[0], ruledOut, restrict, true
+}
+
 func (s *Sentinels) applyRegKill(m gset, v ssa.Value, bf BoolFact) {
+	if hx, out, only, isH := s.predHelper(bf); isH {
+		if Strip(hx) != Strip(v) {
+			return
+		}
+		if !bf.Val {
+			for _, g := range out {
+				delete(m, g)
+			}
+		} else if only != nil {
+			for k := range m {
+				keep := false
+				for _, g := range only {
+					if g == k {
+						keep = true
+					}
+				}
+				if !keep {
+					delete(m, k)
+				}
+			}
+		}
+		return
+	}
 	x, g, pos, ok := s.isTest(bf)
 	if !ok {
 		// err == nil known true: nothing can be returned
@@ -625,6 +764,30 @@ func (s *Sentinels) applyRegKill(m gset, v ssa.Value, bf BoolFact) {
 }
 
 func (s *Sentinels) applyCellKill(st cellState, bf BoolFact, cellOf func(ssa.Value) *ssa.Alloc) {
+	if hx, out, only, isH := s.predHelper(bf); isH {
+		a := cellOf(Strip(hx))
+		if a == nil || st[a] == nil {
+			return
+		}
+		if !bf.Val {
+			for _, g := range out {
+				delete(st[a], g)
+			}
+		} else if only != nil {
+			for k := range st[a] {
+				keep := false
+				for _, g := range only {
+					if g == k {
+						keep = true
+					}
+				}
+				if !keep {
+					delete(st[a], k)
+				}
+			}
+		}
+		return
+	}
 	x, g, pos, ok := s.isTest(bf)
 	if !ok {
 		return
